@@ -7,6 +7,21 @@ COMMON_D_ASSUMPTIONS = [
     "tracing macros are no-ops; spawn pushes a task on a list that the harness runs; mpsc channels are unbounded recorders",
 ]
 
+K_STUBS_TRACING = ["tracing::Event::dispatch, DefaultCallsite::interest, __is_enabled -> no-ops (kani-compiler ICE on the dispatcher thread-local; logging has no effect on state)"]
+K_ASSUMPTIONS = [
+    "engine K: Kani 0.68 / CBMC 6.11 (cadical) on the real crate compiled from /repo through a path dependency; unwinding assertions on; every harness has kani::cover! reachability witnesses that must be SATISFIED",
+    "alloc::fmt::format is stubbed to return an empty String (error messages are not the subject)",
+]
+
+
+def kh(name, about, bound, stubs=(), quick=300, thorough=None, only=None):
+    d = {"name": name, "about": about, "bound": bound, "stubs": list(stubs)}
+    if only != "thorough":
+        d["quick"] = {"timeout": quick}
+    d["thorough"] = {"timeout": thorough or max(quick, 900)}
+    return d
+
+
 STORE_ASSUMPTIONS = COMMON_D_ASSUMPTIONS + [
     "file system is the in-memory shim (write/read/remove on a path->bytes map); a torn write leaves a strict prefix of the new content",
     "record encryption uses the real aes-gcm-siv/hkdf crates iff ant-node's default features forward encrypt-records to ant-networking (read from ant-node/Cargo.toml on every run)",
@@ -94,6 +109,83 @@ PROPS = {
         ],
         "bounds": {"quick": "3..6 peers with fully symbolic 256-bit hashes (6-peer case: order of three names fixed), requested counts 2/5/7, symbolic range"},
         "outside": ["SHA-256 and libp2p's xor themselves", "convert_distance_to_u256's decimal round trip through the uint and ruint libraries (see K harnesses)"],
+    },
+    "C12": {
+        "parts": [
+            {"engine": "K", "crate": "k_proto", "harnesses": [
+                kh("c12_kind_tag_table_fixed", "numeric tag of each of the 8 record kinds is the fixed wire value", "8 kinds, exhaustive"),
+                kh("c12_kind_decoder_inverse_of_encoder", "RecordKind decoder accepts exactly tags 0..=7 and inverts the encoder", "all 2^32 tag values"),
+                kh("c12_header_bytes_fixed_size_and_tag", "real rmp encoding of the header is [0x91, tag], RecordHeader::SIZE bytes, for every kind", "8 kinds", K_STUBS_TRACING),
+                kh("c12_decoders_never_panic_len0", "from_record / is_record_of_type_chunk / try_deserialize_record on 0-byte records", "all contents, length 0", K_STUBS_TRACING + ["rmp_serde::from_slice -> Err"]),
+                kh("c12_decoders_never_panic_len1", "... 1-byte records", "all contents, length 1", K_STUBS_TRACING + ["rmp_serde::from_slice -> Err"]),
+                kh("c12_decoders_never_panic_len2", "... 2-byte records", "all contents, length 2", K_STUBS_TRACING + ["rmp_serde::from_slice -> Err"]),
+                kh("c12_decoders_never_panic_len3", "... 3-byte records", "all contents, length 3", K_STUBS_TRACING + ["rmp_serde::from_slice -> Err"]),
+                kh("c12_decoders_never_panic_len4", "... 4-byte records", "all contents, length 4", K_STUBS_TRACING + ["rmp_serde::from_slice -> Err"]),
+            ]},
+        ],
+        "assumptions": K_ASSUMPTIONS + ["rmp_serde::from_slice is stubbed to fail in the slicing harnesses: serde-derive + rmp decoding of symbolic bytes is out of CBMC's reach (measured > 15 min for 3 bytes)"],
+        "bounds": {"quick": "all 8 kinds; all u32 tags; record lengths 0..4 with arbitrary contents"},
+        "outside": ["round trips of full values of every record kind and of Request/Response messages through serde-derive + rmp (not claimed)", "payloads with payment proofs", "decoding of arbitrary longer byte strings"],
+    },
+    "C16": {
+        "parts": [
+            {"engine": "K", "crate": "k_evm", "harnesses": [
+                kh("c16_checked_add_exact_or_none", "checked_add on two fully symbolic 256-bit amounts equals the exact sum or None exactly on overflow", "all pairs of 256-bit values"),
+                kh("c16_checked_sub_exact_or_none", "checked_sub ... exact difference or None exactly on underflow", "all pairs of 256-bit values"),
+                kh("c16_from_str_len0", "AttoTokens::from_str on the empty string", "length 0", ["ruint from_str_radix/checked_mul/checked_add/pow -> u128 models"]),
+                kh("c16_from_str_len1", "from_str on every 1-character ASCII string: accepted iff plain decimal, value exact", "all ASCII strings of length 1", ["ruint from_str_radix/checked_mul/checked_add/pow -> u128 models"], quick=600),
+                kh("c16_from_str_len2", "... every 2-character ASCII string", "all ASCII strings of length 2", ["ruint from_str_radix/checked_mul/checked_add/pow -> u128 models"], quick=900),
+                kh("c16_from_str_len3", "... every 3-character ASCII string", "all ASCII strings of length 3", ["ruint from_str_radix/checked_mul/checked_add/pow -> u128 models"], quick=1200, thorough=2400),
+                kh("c16_from_str_len4", "... every 4-character ASCII string", "all ASCII strings of length 4", ["ruint from_str_radix/checked_mul/checked_add/pow -> u128 models"], thorough=3400, only="thorough"),
+            ]},
+            {"engine": "D", "crate": "d_evm", "harnesses": [
+                {"name": "c16_display", "covers": ["formatted"], "quick": {"max_paths": 100, "timeout": 300, "env": {"SYMRT_CVC5_ARGS": "--solve-bv-as-int=sum"}}},
+                {"name": "c16_from_str_arith", "covers": ["accepted", "rejected"], "quick": {"max_paths": 1000, "timeout": 600, "env": {"SYMRT_CVC5_ARGS": "--solve-bv-as-int=sum"}}},
+            ]},
+        ],
+        "assumptions": K_ASSUMPTIONS + COMMON_D_ASSUMPTIONS[:1] + [
+            "ruint's own algorithms (parsing, multiplication, division, printing) are library code out of CBMC's reach: in the K from_str harnesses Uint::from_str_radix/checked_mul/checked_add/pow are u128 models exact for <= 6 characters; in engine D Amount is a symbolic 256-bit value, Div/Rem follow the division lemma (a = q*d + r, r < d), parse returns any value with at most as many digits as the template, Display of the integer type is trusted to print plain decimal honouring width/zero-fill",
+            "strings in the K harnesses are ASCII (from_utf8_unchecked + assume < 0x80)",
+        ],
+        "bounds": {"quick": "add/sub: all 256-bit pairs; from_str: all ASCII strings of length 0..3 and digit templates of 1/20/60/78 integer digits x 0/1/9/18/19 fraction digits with symbolic values; Display: all 256-bit amounts",
+                   "thorough": "from_str additionally all ASCII strings of length 4"},
+        "outside": ["parse(print(a)) = a as one statement for all a (follows only for the shapes covered)", "ruint's decimal conversion itself", "non-ASCII input"],
+    },
+    "C17": {
+        "parts": [
+            {"engine": "K", "crate": "k_proto", "harnesses": [
+                kh(f"c17_register_from_hex_decoded_len{n}", f"RegisterAddress::from_hex when the text decodes to {n} bytes: error or value, never a panic", f"all contents, decoded length {n}", ["hex::decode -> vector of that length with symbolic bytes (or Err)", "bls::PublicKey::from_bytes -> Err (blst FFI)"])
+                for n in (0, 1, 31, 32, 33, 79, 80, 81)
+            ]},
+            {"engine": "K", "crate": "k_misc", "harnesses": [
+                kh("c17_increment_port_option_never_overflows", "increment_port_option over Option<u16>", "all 65536 ports and None"),
+                kh("c17_port_range_validate_never_overflows", "PortRange::validate for every start/end/count", "all u16 triples"),
+                kh("c17_port_range_parse_len1", "PortRange::parse on every 1-character ASCII string", "length 1", quick=300),
+                kh("c17_port_range_parse_len2", "PortRange::parse on every 2-character ASCII string", "length 2", quick=600),
+                kh("c17_port_range_parse_len3", "PortRange::parse on every 3-character ASCII string", "length 3", thorough=2400, only="thorough"),
+                kh("c17_check_port_availability_exact", "check_port_availability agrees with the recorded ports (ranges of <= 3 ports, incl. ending at 65535)", "all u16 values, one recorded node", quick=600),
+            ] + [
+                kh(f"c17_decrypt_private_key_decoded_len{n}", f"decrypt_private_key when the stored text decodes to {n} bytes", f"all contents, decoded length {n}", ["hex::decode -> vector of that length", "ring pbkdf2/aead -> arbitrary outcome (FFI)", "String::from_utf8 -> Ok"])
+                for n in (0, 7, 8, 19, 20, 21, 36, 42)
+            ] + [
+                kh("c17_bootstrap_addr_update_status_never_overflows", "BootstrapAddr::update_status + failure_rate over the full u32 counter range", "all u32 pairs"),
+                kh("c17_bootstrap_addr_sync_never_overflows", "BootstrapAddr::sync + failure_rate", "all u32 quadruples"),
+                kh("c17_bootstrap_addr_failure_rate_never_overflows", "BootstrapAddr::failure_rate", "all u32 pairs"),
+            ] + [
+                kh(f"c17_str_to_addr_decoded_len{n}", f"autonomi str_to_addr when the text decodes to {n} bytes", f"decoded length {n}", ["hex::decode -> vector of that length"])
+                for n in (0, 31, 32, 33)
+            ]},
+            {"engine": "K", "crate": "k_evm", "harnesses": [
+                kh("c16_from_str_len1", "AttoTokens::from_str never panics on any 1-character ASCII string (shared with C16, which goes to length 3/4)", "length 1", quick=600),
+            ]},
+        ],
+        "assumptions": K_ASSUMPTIONS + [
+            "items of ant-node-manager (PortRange, increment_port_option, check_port_availability), ant-cli (decrypt_private_key), ant-bootstrap (BootstrapAddr counters) and autonomi (str_to_addr) are transplanted verbatim into the harness crate next to local shims (eyre!/Result, ring, SystemTime): their own crates pull color_eyre thread-locals / ring FFI, which Kani cannot compile or reach",
+            "hex::decode is replaced by a vector of the stated concrete length with symbolic bytes: the slicing/offset logic after decoding is what is decided",
+        ],
+        "bounds": {"quick": "decoded lengths around every slicing boundary (0,1,31,32,33,79,80,81 / 0,7,8,19,20,21,36,42 / 0,31,32,33); full integer ranges for the port and counter arithmetic; strings of length <= 2",
+                   "thorough": "port range strings of length 3"},
+        "outside": ["serde_json parsing of registry and cache files (library; not reachable for CBMC)", "multiaddr text parsing (library)", "round trips through hex::encode/decode themselves", "non-UTF-8 plaintext inside an authenticated wallet blob"],
     },
     "C10": {
         "parts": [
